@@ -4,13 +4,14 @@ import numpy as np
 from iocheck import *
 from common import REPO
 
-RULE = ("synthetic files for Prospa (V1.0/V1.1, types 500/501/502, rank 1-4), VnmrJ (int/float, 1..5 blocks), TopSpin (fid/ser, "
-        "rank 1-3, little/big endian, int/float, 4/8-byte, padded rows), TNMR (rank 1-4, with / without trailer): header "
-        "configuration and random samples drawn per case, the binary section produced by the LEAN ENCODER of the layout model, "
-        "text headers patched from shipped samples, imported by the real importer and compared sample-exactly (values, "
-        "dims, axes) with the array the encoder was given; plus every shipped sample file imports, and the Prospa binary / "
-        "CSV pair imports to the same values; non-trivial = rank >= 2. Not covered by a synthetic encoder: Delta, BES3T, "
-        "WinEPR, SpecMan, RS2D, CSV (shipped samples only)")
+RULE = ("synthetic files for the nine vendor importers — Prospa (V1.0/V1.1, types 500/501/502, rank 1-4), VnmrJ (int/float, 1..5 "
+        "blocks), TopSpin (fid/ser, rank 1-3, little/big endian, int/float, 4/8-byte, padded rows), TNMR (rank 1-4, with / "
+        "without trailing sections), RS2D (1-4-D x receivers), BES3T (1-3-D, REAL/CPLX, BIG/LIT, D/F/I), WinEPR par/spc (1-D, "
+        "2-D), SpecMan (1-4-D x 1-3 variables), JEOL Delta (1-D real/complex, 2-D with 4x4 submatrix tiling, valid-range "
+        "offsets): header configuration and random samples drawn per case, the binary section produced by the LEAN ENCODER of "
+        "the layout model, text headers patched from shipped samples, imported by the real importer and compared "
+        "sample-exactly (values, dims, axes) with the array the encoder was given; plus every shipped sample file imports, "
+        "and the Prospa binary / CSV pair imports to the same values; non-trivial = rank >= 2")
 SHIPPED = [("topspin", "topspin/1"), ("topspin", "topspin/3"), ("topspin", "topspin/5"), ("topspin", "topspin/8"), ("topspin", "topspin/20"),
            ("topspin", "topspin/23"), ("topspin", "topspin/304"), ("topspin", "topspin/700"),
            ("prospa", "prospa/toluene_10mM_Tempone/1"), ("prospa", "prospa/10mM_TEMPO_Water/1Pulse_20200929/35"),
